@@ -87,7 +87,28 @@ pub struct Hist {
 fn gen_history(p: &mut Prng, arch: Arch, n_ops: usize) -> Hist {
     let mut ops = Vec::new();
     let n_mods = 2 + p.below(4) as usize;
-    let mods = gen_modules(p, arch, n_mods, None);
+    let mut mods = gen_modules(p, arch, n_mods, None);
+    // now and then a mapping nested inside another module's range (no unwind data of its own,
+    // or a copy of the outer module's): C07 does not speak about overlapping sets (its oracles
+    // are switched off for them), but C06 does - which module such an address is given to must
+    // not depend on what the cache has seen
+    if p.chance(1, 6) {
+        let big: Vec<usize> = (0..mods.len()).filter(|i| mods[*i].end - mods[*i].start >= 0x100).collect();
+        if !big.is_empty() {
+            let o = mods[*p.pick(&big)].clone();
+            let len = o.end - o.start;
+            let start = o.start + len / 4 + p.below(len / 4);
+            let end = start + 1 + p.below(len / 4);
+            let mut inner = o.clone();
+            inner.start = start;
+            inner.end = end;
+            if p.chance(2, 3) {
+                inner.data = DataSpec::None;
+                inner.base_avma = start;
+            }
+            mods.push(inner);
+        }
+    }
     for (i, m) in mods.iter().enumerate() {
         ops.push(Op::Mod { m: format!("m{i}"), spec: m.clone() });
     }
@@ -257,8 +278,20 @@ fn gen_adversarial(p: &mut Prng, arch: Arch) -> Hist {
         1 => Cfa::RegOff(DReg::Fp, 0),
         _ => Cfa::RegOff(DReg::Sp, *p.pick(&[0i64, 0, 8, 16])),
     };
-    let variant = p.below(4);
+    let variant = match (p.below(5), arch) {
+        (4, Arch::A64) => 0,
+        (v, _) => v,
+    };
+    // variant 4 (x86-64): both FDEs also carry a rule for the stack pointer column,
+    // rsp = CFA - 16 = the current rsp. framehop defines the caller's rsp as the CFA and never
+    // looks at that column; an unwinder that honoured it without its own progress guard would
+    // alternate between A and B forever with an unchanged stack pointer.
+    let sp_column = variant == 4;
     let (row_a, row_b) = match variant {
+        4 => (
+            RowSpec { cfa: Cfa::RegOff(DReg::Sp, 16), fp: RR::Same, ra: RR::Offset(-8) },
+            RowSpec { cfa: Cfa::RegOff(DReg::Sp, 16), fp: RR::Same, ra: RR::Offset(-16) },
+        ),
         // return addresses in two different slots above the (unchanged) stack pointer
         0 => (
             RowSpec { cfa: zero_cfa(p), fp: RR::Same, ra: RR::Offset(8) },
@@ -284,8 +317,8 @@ fn gen_adversarial(p: &mut Prng, arch: Arch) -> Hist {
         data: DataSpec::Dwarf(
             *p.pick(&[Pres::Hdr, Pres::Idx, Pres::Dbg]),
             vec![
-                FdeSpec { start: a_off, len: 0x80, rows: vec![(0, row_a)], eval_fails: false, pac: false },
-                FdeSpec { start: b_off, len: 0x80, rows: vec![(0, row_b)], eval_fails: false, pac: false },
+                FdeSpec { start: a_off, len: 0x80, rows: vec![(0, row_a)], eval_fails: false, pac: sp_column },
+                FdeSpec { start: b_off, len: 0x80, rows: vec![(0, row_b)], eval_fails: false, pac: sp_column },
             ],
         ),
         enc: PtrEnc::Abs8,
@@ -449,6 +482,10 @@ pub fn step_oracles(rep: &mut Report, op: &Op, obs: &Obs, ans: &str, case: impl 
 /// lookup structures and no FDE covering it, the outcome of treating it as a frameless leaf.
 fn uncovered_leaf_expectation<H: ArchH>(w: &World<H>, u: &str, pc: u64, regs: &RegsAny, mem: &crate::mem::MemDesc) -> Option<String> {
     let live = w.live.get(u)?;
+    // (with nested mappings "the module that contains the pc" is not defined by containment)
+    if !no_overlap(live, &w.mods) {
+        return None;
+    }
     let mut found = None;
     for id in live {
         let m = &w.mods[id].0;
